@@ -1193,7 +1193,8 @@ func execQuery64(w *World, st *Step) {
 			pos += n
 		}
 		cnt := 0
-		for x := range roaring64.Values(o.BM) {
+		fseq, bseq := roaring64.Values(o.BM), roaring64.Backward(o.BM)
+		for x := range fseq {
 			if cnt >= len(arr) || x != arr[cnt] {
 				w.fail("C17", "iterator", "64-bit Values wrong", "")
 				return
@@ -1203,8 +1204,51 @@ func execQuery64(w *World, st *Step) {
 				break
 			}
 		}
+		// a sequence value can be walked again (and from inside a walk): each walk starts afresh
+		for pass, seq := range []func(func(uint64) bool){fseq, bseq} {
+			if pass == 1 {
+				k := 0
+				for range seq {
+					k++
+					if k > 3 {
+						break
+					}
+				}
+			}
+			k := 0
+			for x := range seq {
+				want := arr[k]
+				if pass == 1 {
+					want = arr[len(arr)-1-k]
+				}
+				if x != want {
+					w.fail("C17", "iterator", "64-bit Values/Backward: a second walk over the same sequence value differs", fmt.Sprintf("pass %d value #%d: %d want %d", pass, k, x, want))
+					return
+				}
+				k++
+				if k >= 100 || k >= len(arr) {
+					break
+				}
+			}
+			if k == 0 && len(arr) > 0 {
+				w.fail("C17", "iterator", "64-bit Values/Backward: a second walk over the same sequence value is empty", fmt.Sprintf("pass %d", pass))
+				return
+			}
+			if n := len(arr); n > 0 && n <= 30 {
+				pairs := 0
+				for range seq {
+					for range seq {
+						pairs++
+					}
+				}
+				if pairs != n*n {
+					w.fail("C17", "iterator", "64-bit Values/Backward: nested walks over one sequence value interfere", fmt.Sprintf("%d pairs from a set of %d", pairs, n))
+					return
+				}
+			}
+		}
 		cnt = 0
-		for x := range roaring64.Backward(o.BM) {
+		for x := range bseq {
 			if cnt >= len(arr) || x != arr[len(arr)-1-cnt] {
 				w.fail("C17", "iterator", "64-bit Backward wrong", fmt.Sprintf("value #%d from the end is %d", cnt, x))
 				return
